@@ -55,3 +55,8 @@ check("C04", "exploration",
       "The verdict (no panic, no arithmetic overflow, termination) comes from executing the real receive path and every view accessor under catch_unwind with overflow checks on; the specification contributes the structure (Ext.tla: the splitter and object walk stay in bounds for every length attribute x message length, model-checked) and the TLA+ monitor evaluates the aggregated results. Exhaustive single-octet x buffer-length sweeps around valid responses in all 12 configurations, 19 view types, seeded mutations, random bytes, and mutated responses through the full stack.",
       "Arbitrary byte strings are sampled, not enumerated. Trusted: the Rust panic machinery (catch_unwind), the harness.",
       "execution sweeps judged by TLC over aggregated logs (spec/mon/MonFuzz.tla) + TLC model checking of spec/Ext.tla", "7 C04")
+
+check("C20", "model_checking",
+      "Model: TLC explores every interleaving of the writer applying a round in sub-steps, readers cloning in sub-steps and the clearer under the RwLock discipline of tracer.rs; every completed snapshot equals the rounds applied since the last clear in lock order (the lock-free instance must fail). Implementation: real threads (tracer over the simulated socket, 3 snapshot readers, 1 clearer) record call start/end with an atomic sequence number; TLC searches for a linearization in which every snapshot is uniform (= k whole rounds) - the history is rejected otherwise.",
+      "Implementation schedules are sampled, the model's are exhaustive. " + TRUSTED,
+      "TLC model checking of spec/Snapshot.tla + TLC linearizability checking of recorded concurrent histories (spec/mon/MonSnap.tla)", "7 C20")
